@@ -1,5 +1,6 @@
 """C13 — loading adds exactly the document's triples: no foreign ids, chunk workers are line-independent (structural)."""
 from lib import facts as F
+from lib import guards as G
 from lib.taint import Taint
 from c14 import const_text
 
@@ -86,6 +87,18 @@ def run(R):
                      "letters, DIGITS and `-` (LANGTAG ::= '@' [a-zA-Z]+ ('-' [a-zA-Z0-9]+)*) - a narrower class cuts `@es-419` in two, the "
                      "line then has an extra part and is dropped (or, in N-Quads, loaded into a graph named `419`)")
     r6(R)
+    R.rule("C13-R7", "a line is cut at `#` only by a scanner that knows where IRIs and strings are: no loader truncates a document line at the first "
+                     "`#` found by a plain character search (`line.find('#')`); `<http://..#frag>` and `\"a # b\"` contain that character. "
+                     "Whole-line comments (`starts_with('#')`) are fine")
+    R.rule("C13-R8", "every text loader with quoted-literal syntax decodes its literals: from each of the parse_* entry points for N-Triples, N-Quads, "
+                     "Turtle and N3 a literal decoder (one of the term cleaners or the Turtle token decoder) is reachable; a loader that stores the object "
+                     "token as written keeps the surrounding quotes and escapes, so the same triple loads differently from different formats")
+    R.rule("C13-R9", "RDF/XML character data is one literal: the RDF/XML loaders emit a literal triple when the property element ends (End event), "
+                     "from text accumulated over the Text and entity-reference events in between - not one triple per Text event, which splits "
+                     "`a &amp; b` into `a` and `b` and drops the entity")
+    r7(R)
+    r8(R)
+    r9(R)
 
 
 def shared_dictionary(b, fam, prog, root_a, root_b):
@@ -516,3 +529,113 @@ def r6(R):
     ok = bool(classes & digits)
     R.ob("C13-R6", "digits-in-langtag", "the language-tag scanner accepts digits (character classes used: %s)" % sorted(classes), ok, where=b.where(),
          detail=None if ok else "`\"colectivo\"@es-419` is split into `\"colectivo\"@es-` and a stray `419`")
+
+
+LOADER_ENTRIES = ["parse_ntriples_and_add", "parse_nquads_and_add", "parse_turtle", "parse_n3"]
+DECODERS = ("clean_ntriples_term", "clean_turtle_term", "turtle_term", "decode_literal_escapes", "unescape_literal", "encode_loaded_term")
+
+
+def _loader_roots(prog):
+    out = []
+    for k, b in sorted(prog.bodies.items()):
+        if b.self_adt != SD or b.is_closure or is_test(b) or not b.name.startswith("parse_"):
+            continue
+        out.append(b)
+    return out
+
+
+def r7(R):
+    prog = R.prog
+    n = 0
+    nfind = 0
+    for root in _loader_roots(prog):
+        for k in sorted(prog.reachable([root.key])):
+            x = prog.bodies.get(k)
+            if x is None or x.crate != "kolibrie" or not x.file.endswith("sparql_database.rs") or is_test(x):
+                continue
+            for c in x.calls():
+                if c.name() not in ("find", "rfind", "split", "split_once", "splitn") or len(c.args) < 2:
+                    continue
+                nfind += 1
+                pat = c.args[1]
+                d = str((F.op_const(pat) or {}).get("d") or "")
+                if d not in ("'#'", "\"#\""):
+                    continue
+                n += 1
+                rootname = prog.bodies[x.root].name if x.is_closure and x.root in prog.bodies else x.name
+                R.ob("C13-R7", "hash-cut:%s" % rootname, "%s does not cut lines at the first `#`" % rootname, False, where=x.where(c.ln),
+                     detail="`%s('#')` on a document line: an IRI with a fragment or a literal containing `#` is truncated there and the rest of the "
+                            "statement (and its terminator) is lost" % c.name())
+    R.floor("C13-R7", "character searches / splits in the loaders", nfind, 5)
+    R.ob("C13-R7", "scanned", "loaders scanned for `#` searches (%d searches, %d on `#`)" % (nfind, n), True)
+
+
+def r8(R):
+    prog = R.prog
+    found = 0
+    for ent in LOADER_ENTRIES:
+        b = prog.one("SparqlDatabase::" + ent, crate="kolibrie")
+        R.anchor("C13-R8", ent, b)
+        if b is None:
+            continue
+        found += 1
+        reach = prog.reachable([b.key])
+        names = {prog.bodies[k].name for k in reach if k in prog.bodies and prog.bodies[k].crate == "kolibrie"}
+        dec = sorted(n for n in names if n in DECODERS)
+        R.ob("C13-R8", "decodes:" + ent, "%s reaches a literal decoder (%s)" % (ent, ", ".join(dec) or "none"), bool(dec), where=b.where(),
+             detail=None if dec else "object tokens are resolved and encoded as written: `\"v\"@fr` is stored with its quotes while the N-Triples loader stores `v@fr`")
+    R.floor("C13-R8", "text loader entry points", found, 4)
+
+
+def r9(R):
+    prog = R.prog
+    n = 0
+    for ent in ("parse_rdf", "parse_rdf_from_file"):
+        b = prog.one("SparqlDatabase::" + ent, crate="kolibrie")
+        R.anchor("C13-R9", ent, b)
+        if b is None:
+            continue
+        n += 1
+        fam = prog.family(b.key)
+        # the event dispatch: a switch on quick_xml's Event discriminant
+        ev = []
+        for x in fam:
+            for bb, t in x.terms():
+                if t["t"] != "switch":
+                    continue
+                dsc = G.describe_discr(x, t["discr"])
+                if dsc.get("kind") == "discr" and (dsc.get("adt") or "").endswith("events::Event"):
+                    ev.append((x, bb, t))
+        R.ob("C13-R9", "dispatch:" + ent, "%s dispatches on the XML event kind" % ent, bool(ev), where=b.where())
+        if not ev:
+            continue
+        x, bb, t = max(ev, key=lambda e: len(e[2]["targets"]))
+        edges = G.edge_conditions(x, bb)
+        vnames = [cd.get("variant") for tgt, cd in edges if cd.get("variant")]
+
+        def arm_blocks(variant):
+            tg = [tgt for tgt, cd in edges if cd.get("variant") == variant]
+            if not tg:
+                return set()
+            others = [tgt for tgt, cd in edges if cd.get("variant") != variant]
+            return x.reach_from(tg, avoid=set(others) | {bb}) | set(tg)
+        if "Text" not in vnames:
+            R.ob("C13-R9", "event-type:" + ent, "the event dispatch of %s has a Text arm (arms: %s)" % (ent, vnames), False, where=b.where())
+            continue
+        text_arm = arm_blocks("Text")
+        end_arm = arm_blocks("End")
+        ref_arm = arm_blocks("GeneralRef")
+        emits = lambda blocks: [c for c in x.calls() if c.bb in blocks and c.name() == "push" and "Triple" in x.local_ty(F.op_place(c.args[1])["l"]) ] if blocks else []
+        def emits_in(blocks):
+            out = []
+            for c in x.calls():
+                if c.bb in blocks and c.name() == "push" and len(c.args) > 1 and F.op_place(c.args[1]) is not None and "Triple" in x.local_ty(F.op_place(c.args[1])["l"]):
+                    out.append(c)
+            return out
+        te, ee = emits_in(text_arm), emits_in(end_arm)
+        R.ob("C13-R9", "text-does-not-emit:" + ent, "%s does not emit a triple per Text event" % ent, not te, where=x.where(te[0].ln if te else None),
+             detail=None if not te else "character data arrives in pieces (every entity reference is an event of its own): one triple per piece splits the literal")
+        R.ob("C13-R9", "end-emits:" + ent, "%s emits the literal when the property element ends" % ent, bool(ee), where=x.where(ee[0].ln if ee else None))
+        R.ob("C13-R9", "references-kept:" + ent, "%s handles entity references (GeneralRef events)" % ent, bool(ref_arm) and any(c.bb in ref_arm for c in x.calls()),
+             where=x.where(), detail=None if ref_arm else "`&amp;` `&lt;` `&#233;` inside a literal are dropped")
+    R.floor("C13-R9", "RDF/XML loaders", n, 2)
